@@ -254,7 +254,7 @@ theorem exX_valid : exX.Valid where
     have h1' : exFc i g = some l := h1
     have h2' : exFc i g' = some l := h2
     unfold exFc at h1' h2'
-    split at h1' <;> split at h2' <;> simp_all
+    split at h1' <;> split at h2' <;> simp_all <;> omega
   interior := by
     intro i g _ _ hs _
     have hs' : (exFc i g).isSome = true := hs
@@ -266,24 +266,30 @@ theorem exX_valid : exX.Valid where
     · exact ⟨⟨3, -1, false⟩, ⟨2, 1, true⟩, Or.inr rfl, rfl, rfl, rfl⟩
     · cases hs'
 
-/-- observable part of a host: rows of cell_faces, fracture tags, frac_pairs, face_cells columns -/
-def view (s : Host) : List (List (Nat × Int)) × List Bool × List (Nat × Nat) × List (List (Option Nat)) :=
-  ((List.range s.nF).map (fun g => (s.inc g).map (fun a => (a.cell, a.sign))), (List.range s.nF).map s.frac, s.pairs,
-    (List.range s.nFr).map (fun i => (List.range s.fcCols).map (s.fc i)))
+/-- observable parts of a host: rows of cell_faces and fracture tags; frac_pairs and face_cells columns -/
+def view1 (s : Host) : List (List (Nat × Int)) × List Bool :=
+  ((List.range s.nF).map (fun g => (s.inc g).map (fun a => (a.cell, a.sign))), (List.range s.nF).map s.frac)
+
+def view2 (s : Host) : List (Nat × Nat) × List (List (Option Nat)) :=
+  (s.pairs, (List.range s.nFr).map (fun i => (List.range s.fcCols).map (s.fc i)))
 
 /-- the X: four faces are duplicated (new faces 12..15), the cells below / left of the fractures
     move to the duplicates, both copies are tagged and coupled to the same lower-dimensional cell -/
-example : (splitFaces exX).toOption.map view = some
+example : (splitFaces exX).toOption.map view1 = some
     ([[(0, -1)], [(1, -1)], [(1, 1)], [(2, -1)], [(3, -1)], [(3, 1)], [(0, -1)], [(1, -1)], [(2, -1)], [(3, -1)],
       [(2, 1)], [(3, 1)], [(0, 1)], [(1, 1)], [(0, 1)], [(2, 1)]],
-     [false, true, false, false, true, false, false, false, true, true, false, false, true, true, true, true],
-     [(8, 12), (9, 13), (1, 14), (4, 15)],
+     [false, true, false, false, true, false, false, false, true, true, false, false, true, true, true, true]) := by
+  decide +kernel
+
+example : (splitFaces exX).toOption.map view2 = some
+    ([(8, 12), (9, 13), (1, 14), (4, 15)],
      [[none, none, none, none, none, none, none, none, some 0, some 1, none, none, some 0, some 1, none, none],
       [none, some 0, none, none, some 1, none, none, none, none, none, none, none, none, none, some 0, some 1]]) := by
   decide +kernel
 
-example : (splitFaces exX).toOption.map (fun s => (createInterface 2 (s.fc 0) s.fcCols, createInterface 2 (s.fc 1) s.fcCols))
-    = some (.ok ⟨2, [(0, 8), (1, 9), (0, 12), (1, 13)]⟩, .ok ⟨2, [(0, 1), (1, 4), (0, 14), (1, 15)]⟩) := by
+example : (splitFaces exX).toOption.map (fun s => ((createInterface 2 (s.fc 0) s.fcCols).toOption,
+      (createInterface 2 (s.fc 1) s.fcCols).toOption))
+    = some (some ⟨2, [(0, 8), (1, 9), (0, 12), (1, 13)]⟩, some ⟨2, [(0, 1), (1, 4), (0, 14), (1, 15)]⟩) := by
   decide +kernel
 
 example : exX.RowsWF := by
@@ -306,12 +312,12 @@ example : ∃ s', splitFaces exX = .ok s' ∧ ∃ g1 g2 : Nat → Nat,
     (fun f l _ hfl => by
       have hfl' : exFc 0 f = some l := hfl
       unfold exFc at hfl'
-      split at hfl' <;> simp_all)
+      split at hfl' <;> simp_all <;> omega)
   refine ⟨s', h, ?_⟩
   obtain ⟨g1, g2, _, hc⟩ := h2 (fun f _ hs => by
     have hs' : (exFc 0 f).isSome = true := hs
     unfold exFc at hs'
-    split at hs' <;> first | rfl | cases hs' | simp_all)
+    split at hs' <;> first | rfl | cases hs')
   exact ⟨g1, g2, hc⟩
 
 /-- a fracture (1-d host, cells 0 1, faces 0 1 2) that ends at another fracture in its tip face 0
@@ -342,9 +348,12 @@ theorem exT_valid : exT.Valid where
     · rename_i h; obtain ⟨_, rfl⟩ := h; cases hr
     · cases hs'
 
-example : (splitFaces exT).toOption.map (fun s => (view s, (List.range s.nF).map s.tip, createInterface 1 (s.fc 0) s.fcCols))
-    = some (([[(0, -1)], [(0, 1), (1, -1)], [(1, 1)]], [true, false, false], [], [[some 0, none, none]]),
-            [false, false, true], .ok ⟨1, [(0, 0)]⟩) := by
+example : (splitFaces exT).toOption.map (fun s => (view1 s, (List.range s.nF).map s.tip))
+    = some (([[(0, -1)], [(0, 1), (1, -1)], [(1, 1)]], [true, false, false]), [false, false, true]) := by
+  decide +kernel
+
+example : (splitFaces exT).toOption.map (fun s => (view2 s, (createInterface 1 (s.fc 0) s.fcCols).toOption))
+    = some (([], [[some 0, none, none]]), some ⟨1, [(0, 0)]⟩) := by
   decide +kernel
 
 end PorepyVerif.C25
